@@ -42,6 +42,9 @@ def _gen_case_a(seed: int, tier: str, index: int) -> Dict[str, Any]:
         plan.append({"op": rng.choice(CMDS), "dev": rng.randrange(8), "arg": rng.randrange(1 << 16),
                      "gap": rng.choice([0.0, 0.3, 1.0, 3.0, 10.0, 45.0]) if not long_history else rng.choice([0.0, 0.3, 1.0]),
                      "overlap": rng.random() < 0.1})
+        if rng.random() < 0.2:
+            plan[-1]["twin"] = True
+            plan[-1]["double"] = rng.random() < 0.5
         if rng.random() < 0.15:
             # issue the command in the very moment one of the library's own periodic requests is in flight (it queues on the lock
             # behind the facade's watercare poll / the refresh / a ping, whose stale answer is then processed first)
@@ -323,11 +326,55 @@ async def scenario(world: WorldA) -> None:
                 res.probe("gate_closed_at_command")
             unaccounted()
             mark = len(model.commands)
-            built = build_command(op, ci, facade, spa, res, cfg["snapshot"], sync=False, model=model)
+            twin = bool(op.get("twin")) and not op["op"].startswith("watercare")
+            built = build_command(op, ci, facade, spa, res, cfg["snapshot"], sync=twin, model=model)
             if built is None:
                 continue
             ctx, expect, thunk = built
             res.stats["commands"] = res.stats.get("commands", 0) + 1
+            if twin:
+                # the blocking-style twin on the async facade: it returns at once, the command is carried out by a task of the library.
+                # With "double" a second command of the same kind (value write / key press) on another item is issued in the same instant.
+                ctx = "[sync twin] " + ctx
+                res.probe("sync_twin_on_async_facade")
+                second = None
+                if op.get("double"):
+                    op2 = dict(op, dev=op["dev"] + 1)
+                    if op["op"] in ("pump_mode", "eco_on", "eco_off"):
+                        op2["op"] = "temp_unit"
+                    elif op["op"] in ("temp_unit", "target_temp"):
+                        op2["op"] = "pump_mode"      # (not the unit together with the target: the unit changes how the target reads)
+                    second = build_command(op2, ci, facade, spa, res, cfg["snapshot"], sync=True, model=model)
+                    if second is not None and (second[1].get("tag"), second[1].get("key")) == (expect.get("tag"), expect.get("key")):
+                        second = None
+                try:
+                    thunk()
+                    if second is not None:
+                        second[2]()
+                        res.probe("two_sync_twins_in_one_instant")
+                except Exception as e:
+                    world.violate(PROP, "command-raised", f"{ctx}: raised {type(e).__name__}: {e}")
+                await asyncio.sleep(0.05)
+                await settle()
+                real = list(model.commands[mark:])
+                n1 = expect["n"]
+                if gate_closed and len(real) < n1 + (second[1]["n"] if second is not None else 0):
+                    from geckolib.config import GeckoConfig as _GC2
+                    world.note(PROP, "command-dropped", f"{ctx}: silently dropped: is_responding_to_pings was False although the spa answers "
+                               f"every ping (2 x PING_FREQUENCY={_GC2.PING_FREQUENCY_IN_SECONDS}s window)", sig="command-dropped:ping-gate-closed-on-benign-network")
+                    accounted.update(n=len(model.commands), ctx=ctx)
+                    continue
+                if second is not None:
+                    n2 = second[1]["n"]
+                    if len(real) != n1 + n2:
+                        world.violate(PROP, "command-count", f"{ctx} together with {second[0]}: {len(real)} command datagram(s) reached the spa, expected "
+                                      f"{n1} + {n2}: {[c['raw'][:12] for c in real]}", sig="command-count:" + ("extra" if len(real) > n1 + n2 else "missing"))
+                    judge(world, ctx, expect, real[:n1], model, spa, facade, ident)
+                    judge(world, "[sync twin] " + second[0], second[1], real[n1:n1 + n2], model, spa, facade, ident)
+                else:
+                    judge(world, ctx, expect, real, model, spa, facade, ident)
+                accounted.update(n=len(model.commands), ctx=ctx)
+                continue
             if op.get("overlap") and expect["n"] == 1:
                 # issue it while another request is in flight (it queues on the protocol lock)
                 inflight.append(asyncio.create_task(spa.async_get_reminders(), name=f"HARNESS:bg-{ci}"))
@@ -406,7 +453,7 @@ ASSUMPTIONS = [
     "temperature read-back is compared within one raw unit (1/18 C or 0.1 F); exact raw arithmetic is C14's business",
     "SPACK/SETWC layouts are decoded independently in the harness",
 ]
-PROBES = ["blocking_command", "command_right_after_library_sent_GETWC", "more_than_a_full_cycle_of_pack_commands", "command_while_another_in_flight", "in_active_mode", "in_idle_mode", "eco_on", "eco_off", "watercare_index", "watercare_label",
+PROBES = ["sync_twin_on_async_facade", "two_sync_twins_in_one_instant", "blocking_command", "command_right_after_library_sent_GETWC", "more_than_a_full_cycle_of_pack_commands", "command_while_another_in_flight", "in_active_mode", "in_idle_mode", "eco_on", "eco_off", "watercare_index", "watercare_label",
           "on_from_off:GeckoLight", "off_from_on:GeckoLight", "on_when_already:GeckoLight", "off_when_already:GeckoLight",
           "on_from_off:GeckoBlower", "off_from_on:GeckoBlower", "target_temp_C", "target_temp_F"]
 N_QUICK = 68
